@@ -400,10 +400,37 @@ def gen_graphs(ctx, rnd, cases):
         cases.append({"op": "val", "kind": "graph", "v": enc, "nodes": [], "root": 0, "cyclic": True, "predict": False, "risky": name})
 
 
+def gen_contained(ctx, rnd, cases):
+    """every scalar of the scalar domains again as an ELEMENT (containers print their elements by another route than
+    str/repr of the value itself): list element, tuple element, dict key, dict value, nested - rotating"""
+    scal = [c for c in cases if c["op"] == "val" and c["kind"] in ("int", "str", "bytes", "float")]
+    k = 0
+    for c in scal:
+        if True:
+            v = c["v"]
+            if c["kind"] == "float" and v["e"] == 2047:     # inf and nan have no literal: no round trip through source text
+                k += 1
+                continue
+            route = k % 5
+            hashable = True
+            if route == 0:
+                w = {"t": "list", "v": [v]}
+            elif route == 1:
+                w = {"t": "tuple", "v": [v, enc_int(0)]}
+            elif route == 2 and hashable:
+                w = {"t": "dict", "v": [[v, enc_int(0)]]}
+            elif route == 3:
+                w = {"t": "dict", "v": [[enc_str("k"), v]]}
+            else:
+                w = {"t": "list", "v": [{"t": "tuple", "v": [{"t": "list", "v": [enc_int(1), v]}]}]}
+            cases.append({"op": "val", "kind": "tree", "v": w})
+        k += 1
+
+
 def generate(ctx):
     rnd = random.Random(ctx.seed)
     cases = []
-    for g in (gen_strings, gen_ints, gen_floats, gen_trees, gen_graphs):
+    for g in (gen_strings, gen_ints, gen_floats, gen_trees, gen_graphs, gen_contained):
         g(ctx, rnd, cases)
     for k, c in enumerate(cases):
         c["id"] = k + 1
